@@ -370,6 +370,35 @@ pub fn check_case(mv: &MV, pi: usize, sched: &Sched) -> CaseResult {
             Sched::Max(k) => vec![*k, s_default.len()],
             _ => vec![s_default.len() / 2, s_default.len()],
         };
+        // a fmt::Write that refuses exactly one call and accepts again afterwards
+        if matches!(sched, Sched::FailOnceEverywhere | Sched::ErrorEverywhere) {
+            struct OnceFmt {
+                out: String,
+                at: usize,
+                fired: bool,
+            }
+            impl FmtWrite for OnceFmt {
+                fn write_str(&mut self, s: &str) -> std::fmt::Result {
+                    if !self.fired && self.out.len() + s.len() > self.at {
+                        self.fired = true;
+                        return Err(std::fmt::Error);
+                    }
+                    self.out.push_str(s);
+                    Ok(())
+                }
+            }
+            for at in 0..s_default.len() {
+                let mut sink = OnceFmt { out: String::new(), at, fired: false };
+                let res = write!(sink, "{}", v);
+                evals += 1;
+                if res.is_ok() || !s_default.starts_with(&sink.out) {
+                    return Err((
+                        format!("entry=Display fault=refused-once token={} {}", token_kind_at(s_default.as_bytes(), at), if res.is_ok() { "ok-on-error" } else { "not-a-prefix" }),
+                        format!("Display into a fmt::Write that refuses the one call that would pass offset {} gave {:?} (result ok={}) for {:?}", at, clip(&sink.out, 200), res.is_ok(), clip(&s_default, 200)),
+                    ));
+                }
+            }
+        }
         for limit in limits {
             let mut sink = FmtSink { out: String::new(), limit };
             let res = write!(sink, "{}", v);
